@@ -168,6 +168,25 @@ def modelAsmStr (cfg : Config) (bytes : List Nat) : String :=
   | .fault (.hang _) => "timeout"
   | .fault (.panic p) => "panic:" ++ (match p with | .index => "index" | .nilDeref => "nil" | .divZero => "div" | .slice => "slice" | .makeLen => "make")
 
+/-- tokens passed through the scan / expand loop of CompileWarrior, summed over its passes: the
+    size of the input "after FOR expansion" that C05's time bound is proportional to -/
+def forWork : Nat → Nat → List Token → Nat → Nat
+  | 0, _, _, acc => acc
+  | fuel + 1, depth, tokens, acc =>
+    match scanInput tokens with
+    | .ok (some (symbols, true)) =>
+      match forExpandWith expandAndEvaluate tokens symbols with
+      | .ok (some expanded, false) =>
+        if depth + 1 > 12 then acc + tokens.length + expanded.length
+        else forWork fuel (depth + 1) expanded (acc + tokens.length)
+      | _ => acc + tokens.length
+    | _ => acc + tokens.length
+
+/-- inputs whose expansion passes move more than a million tokens are outside the bound under
+    which the per-case deadline is meaningful (C05: "FOR counts multiply to at most a fixed bound") -/
+def beyondDeadlineBound (bytes : List Nat) : Bool :=
+  forWork 14 0 (lexBytes (bytes.map UInt8.ofNat)) 0 ≥ 1000000
+
 def propOfTag (tag : String) : String :=
   if tag == "expr" then "C07" else if tag == "for" then "C08" else "C03"
 
@@ -184,9 +203,13 @@ def runAsmLine (modelAsm : Option (Config → List Nat → String)) (line : Stri
         let parts := resp.splitOn " ## "
         match parts.head?.bind parseAsmObs with
         | none => ([s!"V {id} {tag} PARSE op=0 bad result '{resp.take 80}'"], fun s => s)
-        | some o => Id.run do
-          let mut out : List String := []
+        | some o =>
           let bytes := unhex hex
+          if o.r.kind == "timeout" && hex.length ≤ 300000 && beyondDeadlineBound bytes then
+            ([s!"V {id} {tag} SKIP ops=1 deadline hit on an input whose FOR expansion moves more than 1e6 tokens"],
+             fun s => { s with cases := s.cases + 1, skipped := s.skipped + 1 })
+          else Id.run do
+          let mut out : List String := []
           -- tie with the assembler model
           match (if hex.length > 300000 then none else modelAsm) with   -- very large inputs: predicates only
           | some f =>
